@@ -103,6 +103,11 @@ pub fn build(rng: &mut Rng, scale: usize, thorough: bool) -> Vec<Item> {
 		("fixed.yaml_utf8_bom_4byte_flow", b"\xef\xbb\xbf[\"\xf0\x9f\xa7\x91\", \"\xf0\x9f\x92\xbb\"]\n"),
 		("fixed.yaml_utf8_bom_docs", b"\xef\xbb\xbf---\nk: \xe2\x82\xac\n---\n- \xc3\xbc\xc3\xbc\n- \xe2\x82\xac\n"),
 		("fixed.yaml_utf8_bom_ascii", b"\xef\xbb\xbfa: 1\n---\nb: 2\n"),
+		("fixed.json_utf8_bom_object", b"\xef\xbb\xbf{\"a\": -0}\n"),
+		("fixed.json_utf8_bom_array", b"\xef\xbb\xbf[1, 2]"),
+		("fixed.json_utf8_bom_ws", b"\xef\xbb\xbf  \n{\"a\": 1}\n{\"b\": 2}\n"),
+		("fixed.bom_only", b"\xef\xbb\xbf"),
+		("fixed.bom_short", b"\xef\xbb\xbfa"),
 		// line breaks and blanks on which Rust's str methods and YAML disagree
 		("fixed.yaml_comment_cr", b"# c\ra: 1\r"),
 		("fixed.yaml_comment_nel", b"# c\xc2\x85a: 1\n"),
